@@ -10,11 +10,11 @@
 (* API layer of OperApi.tla as an explicit step in front of the store      *)
 (* rule:                                                                   *)
 (*   - an operator call that the API refused is logged as ApiRefused; it   *)
-(*     must be a request the layer is specified to refuse                  *)
+(*     must be a request the layer is specified to (may) refuse            *)
 (*     (refusal_justified) and it must leave the message table and the     *)
 (*     volatile throttle state exactly as they were (post, vol);           *)
-(*   - an operator call that passed must be a request the layer is         *)
-(*     specified to pass (api_passes), the concrete spelling must stand    *)
+(*   - an operator call that passed must not be a request the layer must   *)
+(*     refuse (api_passes), the concrete spelling must stand               *)
 (*     for the abstract arguments the store rule is evaluated with         *)
 (*     (binding_limit, binding_ids), and the counts in the MCP audit       *)
 (*     record of the call must be the counts of the answer (audit_counts). *)
@@ -36,14 +36,18 @@ ApiRefusesEvent(e) ==
       f == ApiFilter(e)
   IN Refuses(c.surface, c.kind, c.form, c.audit, c.limit_absent, c.limit_wire, c.tids, f.st, ApiAllowed(e), f.rt, SeqRange(c.managed))
 
-\* a passed operator call: the layer passes it, and the wire spelling binds to the abstract arguments
+ApiMustRefuseEvent(e) ==
+  LET c == e.api
+  IN MustRefuse(c.kind, c.form, c.audit, ApiFilter(e).rt, SeqRange(c.managed))
+
+\* a passed operator call: not one the layer must refuse, and the wire spelling binds to the abstract arguments
 ApiPass ==
   LET e == Trace[l]
   IN IF ~HasApi(e) \/ e.ev = "ApiRefused" THEN TRUE
      ELSE LET c == e.api
-          IN /\ Chk("api_passes", ~c.refused /\ ~ApiRefusesEvent(e))
+          IN /\ Chk("api_passes", ~c.refused /\ ~ApiMustRefuseEvent(e))
              /\ Chk("binding_limit", c.kind = "ids" \/ WireLimit(c.limit_absent, c.limit_wire) = EffLimit(ApiFilter(e).limit))
-             /\ Chk("binding_ids", c.kind # "ids" \/ SeqRange(c.tids) = SeqRange(e.a.nids))
+             /\ Chk("binding_ids", c.kind # "ids" \/ (SeqRange(c.tids) \ {""}) = SeqRange(e.a.nids))
              /\ Chk("audit_counts",
                     \/ ~IsMcpSurface(c.surface) \/ c.kind \notin {"ids", "filter"}
                     \* (an answer omits a count of 0, and the audit record copies the answer: absent = 0)
